@@ -80,8 +80,11 @@ class Report:
         for i in self.instances:
             if i.status in (HOLDS, VIOLATION):
                 counts[i.rule] += 1
+        _known_now = {k["key"] for k in load_known(known_path) if k.get("property") == self.pid and k.get("status") == "known"}
+        has_violation = any(i.status == VIOLATION and i.key not in _known_now for i in self.instances)
         for r, mn in self.min_instances.items():
-            if counts[r] < mn:
+            # a rule may legitimately stop early after reporting a violation its other parts depend on
+            if counts[r] < mn and not has_violation:
                 raise AnalysisError(
                     f"rule {r} decided {counts[r]} instance(s), fewer than the {mn} confirmed by hand "
                     f"(anchors moved or recogniser no longer matches; refusing to pass vacuously)")
